@@ -30,6 +30,86 @@ dec_mod = z3.Function('dec_mod', Dec, Dec, Dec)
 dec_neg = z3.Function('dec_neg', Dec, Dec)
 dec_lt = z3.Function('dec_lt', Dec, Dec, B)
 hashf = z3.Function('hash', Val, I)
+truthyV = z3.RecFunction('truthy', Val, B)
+dec2int = z3.Function('dec2int', Dec, I)
+_v = z3.Const('v!def', Val)
+z3.RecAddDefinition(truthyV, [_v],
+    z3.If(Val.is_VNone(_v), False,
+    z3.If(Val.is_VBool(_v), Val.b(_v),
+    z3.If(Val.is_VInt(_v), Val.i(_v) != 0,
+    z3.If(Val.is_VDec(_v), Val.d(_v) != int2dec(0),
+    z3.If(Val.is_VStr(_v), z3.Length(Val.s(_v)) > 0,
+    z3.If(Val.is_VSeq(_v), z3.Length(items(Val.h(_v))) > 0,
+    z3.If(Val.is_VObj(_v), obj_truthy(Val.o(_v)), True))))))))
+
+
+def _apps(e, names, out, seen):
+    k = e.get_id()
+    if k in seen:
+        return
+    seen.add(k)
+    if z3.is_quantifier(e):
+        _apps(e.body(), names, out, seen)
+        return
+    if z3.is_app(e):
+        if e.decl().name() in names:
+            out.append(e)
+        for ch in e.children():
+            _apps(ch, names, out, seen)
+
+
+def _ground(e):
+    return not z3.z3util.get_vars(e) if False else _is_ground(e)
+
+
+def _is_ground(e, cache={}):
+    k = e.get_id()
+    if k in cache:
+        return cache[k]
+    r = True
+    if z3.is_var(e):
+        r = False
+    elif z3.is_quantifier(e):
+        r = False
+    else:
+        for ch in e.children():
+            if not _is_ground(ch):
+                r = False
+                break
+    cache[k] = r
+    return r
+
+
+def ground_axioms(formulas):
+    """quantifier-free instances of the (trusted) algebraic facts about the uninterpreted Decimal
+    symbols, one per ground application occurring in the query: int2dec injective and order/sum
+    preserving, dec_add/dec_mul commutative, dec_lt irreflexive and asymmetric."""
+    apps, seen = [], set()
+    for f in formulas:
+        _apps(f, {'int2dec', 'dec_add', 'dec_mul', 'dec_lt'}, apps, seen)
+    out = []
+    ints = []
+    for a in apps:
+        if not _is_ground(a):
+            continue
+        n = a.decl().name()
+        if n == 'int2dec':
+            out.append(dec2int(a) == a.arg(0))
+            ints.append(a)
+        elif n in ('dec_add', 'dec_mul'):
+            out.append(a == a.decl()(a.arg(1), a.arg(0)))
+        elif n == 'dec_lt':
+            out.append(z3.Not(z3.And(a, dec_lt(a.arg(1), a.arg(0)))))
+            if a.arg(0).eq(a.arg(1)):
+                out.append(z3.Not(a))
+    out.append(dec2int(int2dec(0)) == 0)
+    for x in ints[:12]:
+        for y in ints[:12]:
+            if x.get_id() < y.get_id():
+                out.append(dec_lt(x, y) == (x.arg(0) < y.arg(0)))
+                out.append(dec_lt(y, x) == (y.arg(0) < x.arg(0)))
+    return out
+
 
 MAXORD = 3652059   # date(9999,12,31).toordinal()
 
